@@ -289,3 +289,40 @@ func TestKnownPrecommitHeightZero(t *testing.T) {
 		ev.Violation(t, k, text(), "%s", c.msgs[i])
 	}
 }
+
+// ---------------------------------------------------------------- proposal with a POL round that has no vote set
+
+const keyPOLRound = "panic:consensus.MsgToProto"
+
+func TestKnownProposalPOLRound(t *testing.T) {
+	v, err := buildVictim(scenario{1, "propose"})
+	if err != nil {
+		t.Fatalf("harness: %v", err)
+	}
+	defer v.close()
+	cs := v.nd.CS
+	pi := v.proposerIndex()
+	if pi < 0 || pi == v.V || cs.Proposal != nil {
+		t.Fatalf("harness: scenario not usable: proposer %d victim %d proposal %v", pi, v.V, cs.Proposal)
+	}
+	id := types.BlockID{Hash: common.BytesToHash([]byte{1}), PartsHeader: types.PartSetHeader{Total: 1, Hash: common.BytesToHash([]byte{2})}}
+	p := v.s.SignProposal(pi, cs.Height, cs.Round, cs.Round+5, id)
+	ws := []wire{proposalWire(p), v.roundStepWire(cs.Height, cs.Round, 3)}
+	text := func() string { return "scn=" + v.sc.String() + " " + wiresText(ws) }
+	var c collector
+	info := v.runSequence(t, c.report, ws, text)
+	ev.Case(true, text(), "directed", "directed:proposal-polround")
+	ev.Sample("directed:proposal-polround", fmt.Sprintf("proposal for (%d,%d) signed by the round's proposer with POLRound=%d, then NewRoundStep(%d,%d) from a peer without the proposal: accepted=%v keys=%v",
+		cs.Height, cs.Round, cs.Round+5, cs.Height, cs.Round, cs.Proposal != nil, c.keys))
+	_ = info
+	if ev.Known(keyPOLRound) {
+		ev.KnownReproduced(keyPOLRound, c.has(keyPOLRound))
+		return
+	}
+	for i, k := range c.keys {
+		ev.Violation(t, k, text(), "%s", c.msgs[i])
+	}
+	if cs.Proposal != nil {
+		ev.Violation(t, "proposal.polround-not-before-round.accepted", text(), "a proposal with POLRound %d >= Round %d was accepted", p.POLRound, p.Round)
+	}
+}
